@@ -1,4 +1,5 @@
 use crate::error::*;
+use crate::parser::error::SyntaxError;
 use either::Either;
 use std::{fmt::Display, iter::FromIterator, mem};
 // r7rs 6.4. Pairs and lists
@@ -156,7 +157,10 @@ impl<T: Pairable> GenericPair<T> {
         self.pop()
             .map(|item| match item {
                 PairPopItem::Proper(t) => Ok(t),
-                PairPopItem::Improper(_, _) => todo!(),
+                PairPopItem::Improper(_, _) => error!(SyntaxError::ExpectSomething(
+                    "proper list".to_string(),
+                    "improper list".to_string()
+                )),
             })
             .transpose()
     }
